@@ -69,6 +69,12 @@ def plan(tier, seed):
         for g in CMAC_GROUPS:
             add("cmac", rep, ciphers=g)
         add("poly1305", rep)
+    # one update()/new() call that carries the message length across 2^32 BITS (512 MiB); thorough: across 2^32 BYTES too
+    for i, g in enumerate((["sha256", "md5", "sha3_256"], ["sha224", "sha1", "blake2b"], ["sha512", "sha384", "blake2s"])):
+        specs.append(dict(kind="huge", rep=0, algos=g, sizes=[(1 << 29) + 200], timeout_s=900))
+    if not q:
+        for g in (["sha256"], ["sha1"], ["sha512"], ["md5"]):
+            specs.append(dict(kind="huge", rep=1, algos=g, sizes=[(1 << 32) + 200], timeout_s=2400))
     return specs
 
 
@@ -82,6 +88,8 @@ def finalize(agg, tier):
         for name in ("big:1MiB", "big:k12-256-chunks"):
             if not c.get(name):
                 out.append("deciding counter %s is zero" % name)
+    if not c.get("huge_cases"):
+        out.append("no message longer than 2^29 bytes was hashed in a single call")
     if not c.get("decoy_objects"):
         out.append("no neighbouring (decoy) MAC object was created")
     if c.get("oracle:disagree"):
@@ -537,6 +545,45 @@ def hash_grid_and_random(spec, ctx, H, names, extra, big=True):
         data, gen = mk_msg(rng, n)
         check_digest(ctx, A, data, gen, rand_segs(rng, n, b), rng, (A["name"], "rand", lencls(n, b)))
         ctx.count("random:" + A["name"])
+
+
+def w_huge(spec, ctx, H):
+    """A single call given a buffer whose length crosses a power of two that internal length counters may care about
+    (2^32 bits = 512 MiB; thorough: 2^32 bytes).  Oracle: hashlib.  Presentations: one-shot new(data), one update() call,
+    and two update() calls cut 64 bytes before the boundary."""
+    import importlib
+    from vf.ctx import outcome
+    libname = {"sha256": "SHA256", "sha224": "SHA224", "sha1": "SHA1", "md5": "MD5", "sha384": "SHA384", "sha512": "SHA512",
+               "sha3_256": "SHA3_256", "blake2b": "BLAKE2b", "blake2s": "BLAKE2s"}
+    for n in spec["sizes"]:
+        data = bytearray(n)
+        data[0], data[n // 2], data[-1] = 1, 2, 3
+        mv = memoryview(data)
+        boundary = 1 << (n.bit_length() - 1)
+        for name in spec["algos"]:
+            mod = importlib.import_module("Crypto.Hash." + libname[name])
+            kw = {"digest_bytes": 64 if name == "blake2b" else 32} if name.startswith("blake2") else {}
+            exp = hashlib.new(name, mv).digest()
+            for path in ("new(data)", "one update()", "two update() calls around the boundary"):
+                def run_():
+                    if path == "new(data)":
+                        return mod.new(data=mv, **kw).digest()
+                    h = mod.new(**kw)
+                    if path == "one update()":
+                        h.update(mv)
+                    else:
+                        h.update(mv[:boundary - 64])
+                        h.update(mv[boundary - 64:])
+                    return h.digest()
+                o = outcome(run_)
+                ctx.case((name, "huge", n.bit_length(), path))
+                ctx.count("huge:" + name)
+                ctx.count("huge_cases")
+                ctx.check(o == ("ok", exp), name + ":wrong-output:huge-single-call",
+                          "the digest of a message of more than 2^%d bytes differs from the standard's (hashlib)" % (n.bit_length() - 1),
+                          lambda: {"algo": name, "message": "zeros with bytes 1, 2, 3 at offsets 0, n/2, n-1", "msg_len": n, "path": path,
+                                   "got": o[1].hex() if o[0] == "ok" else repr(o[1]), "expected": exp.hex()})
+        del mv, data
 
 
 def w_md(spec, ctx, H):
